@@ -350,6 +350,7 @@ def main(repo, lean):
     proto = rd(repo, "private/http_protocol.h")
     req = rd(repo, "src/http_request.cpp")
     util = rd(repo, "src/util.cpp")
+    smap = rd(repo, "private/string_map.h")
     o = []
     w = o.append
     w("/- GENERATED by translate/c01.py from src/scgi_api.cpp, src/fastcgi_api.cpp, src/http_api.cpp, "
@@ -619,6 +620,52 @@ def main(repo, lean):
     need(re.search(r"d->read_size\s*\+=\s*n\s*;", b), "on_content_progress read_size")
     need(re.search(r"if\s*\(\s*d->read_size\s*==\s*d->content_length\s*\)\s*\{\s*if\s*\(\s*d->read_full\s*\)", b), "on_content_progress completion test")
     need(re.search(r"d->content_length\s*=\s*conn_->env_content_length\(\)\s*;\s*if\s*\(\s*d->content_length\s*==\s*0\s*\)\s*d->ready\s*=\s*true\s*;", function_body(req, r"bool\s+request::prepare\s*\(\s*\)\s*\{")), "request::prepare")
+    w("")
+
+    # ============================================================ string_map / string_pool
+    w("/-! ## CGI environment container (private/string_map.h) -/")
+    m = need(re.search(r"#elif\s+1\b(.*?)#else", smap, re.S), "string_map: active variant (#elif 1)")
+    act = m.group(1)
+    m = need(re.search(r"string_map\(\)\s*\{\s*data_\.resize\((\d+)\)\s*;\s*total_\s*=\s*0\s*;\s*first_\s*=\s*-1\s*;\s*\}", act), "string_map constructor")
+    w(f"def smInitSize : Nat := {m.group(1)}")
+    m2 = need(re.search(r"void\s+clear\(\)\s*\{\s*data_\.clear\(\)\s*;\s*data_\.resize\((\d+)\)\s*;", act), "string_map::clear")
+    if m2.group(1) != m.group(1):
+        raise Untranslatable("string_map: clear() and constructor sizes differ")
+    b = function_body(act, r"void\s+add\s*\(\s*char\s+const\s*\*\s*key\s*,\s*char\s+const\s*\*\s*value\s*\)\s*\{")
+    m = need(re.fullmatch(r"\s*entry\s+new_entry\(key,value\)\s*;\s*if\s*\(([^{]*?)\)\s*\{\s*int\s+new_first\s*=\s*-1\s*;\s*std::vector<entry>\s+new_data\(([^;]*?)\)\s*;\s*"
+                          r"for\s*\(\s*iterator\s+p\s*=\s*begin\(\)\s*,\s*e\s*=\s*end\(\)\s*;\s*p\s*!=\s*e\s*;\s*\+\+p\s*\)\s*\{\s*insert\(new_data,\*p,new_first\)\s*;\s*\}\s*"
+                          r"first_\s*=\s*new_first\s*;\s*data_\.swap\(new_data\)\s*;\s*\}\s*insert\(data_,new_entry,first_\)\s*;\s*total_\+\+\s*;\s*", b, re.S), "string_map::add shape")
+    grow = m.group(1).replace("data_.size()", "size").replace("total_", "total")
+    newsz = m.group(2).replace("data_.size()", "size")
+    w(f"/-- `if({m.group(1).strip()})` : the table is rebuilt before the new entry goes in -/\ndef smGrow (total size : Nat) : Bool := {c_to_lean(grow)}")
+    w(f"/-- `new_data({m.group(2).strip()})` -/\ndef smNewSize (size : Nat) : Nat := {c_to_lean(newsz)}")
+    b = function_body(act, r"static\s+void\s+insert\s*\(")
+    m = need(re.fullmatch(r"\s*int\s+pos\s*=\s*([^;]+);\s*while\s*\(\s*d\[pos\]\.key\s*\)\s*pos\s*=\s*([^;]+);\s*d\[pos\]\s*=\s*e\s*;\s*d\[pos\]\.next_index\s*=\s*first\s*;\s*first\s*=\s*pos\s*;\s*", b), "string_map::insert shape")
+    w(f"/-- `int pos = {m.group(1).strip()}` in `insert` -/\ndef smInsertStart (hash size : Nat) : Nat := {c_to_lean(m.group(1).replace('e.hash', 'hash').replace('d.size()', 'size'))}")
+    w(f"/-- `pos = {m.group(2).strip()}` in `insert` -/\ndef smInsertStep (pos size : Nat) : Nat := {c_to_lean(m.group(2).replace('d.size()', 'size'))}")
+    b = function_body(act, r"char\s+const\s*\*\s*get\s*\(\s*char\s+const\s*\*\s*ckey\s*\)\s*\{")
+    m = need(re.fullmatch(r"\s*entry\s+e\(ckey\)\s*;\s*int\s+pos\s*=\s*([^;]+);\s*while\s*\(\s*data_\[pos\]\.key\s*&&\s*!\(data_\[pos\]\s*==\s*e\)\s*\)\s*pos\s*=\s*([^;]+);\s*"
+                          r"if\s*\(\s*data_\[pos\]\.key\s*==\s*0\s*\)\s*return\s+0\s*;\s*return\s+data_\[pos\]\.value\s*;\s*", b), "string_map::get shape")
+    w(f"/-- `int pos = {m.group(1).strip()}` in `get` -/\ndef smGetStart (hash size : Nat) : Nat := {c_to_lean(m.group(1).replace('e.hash', 'hash').replace('data_.size()', 'size'))}")
+    w(f"/-- `pos = {m.group(2).strip()}` in `get` -/\ndef smGetStep (pos size : Nat) : Nat := {c_to_lean(m.group(2).replace('data_.size()', 'size'))}")
+    # string_pool
+    m = need(re.search(r"string_pool\(size_t\s+page_size\s*=\s*(\d+)\)", smap), "string_pool page size")
+    w(f"def poolPageSize : Nat := {m.group(1)}")
+    b = function_body(smap, r"char\s*\*\s*allocate_space\s*\(\s*size_t\s+size\s*\)\s*\{")
+    m = need(re.fullmatch(r"\s*if\s*\(([^{]*?)\)\s*\{\s*page\s*\*\s*p\s*=\s*\(page\s*\*\)malloc\(size\s*\+\s*sizeof\(page\)\)\s*;\s*if\(!p\)\s*throw\s+std::bad_alloc\(\)\s*;\s*"
+                          r"p->next\s*=\s*pages_->next\s*;\s*pages_->next\s*=\s*p\s*;\s*return\s+p->data\s*;\s*\}\s*if\s*\(([^{]*?)\)\s*\{\s*add_page\(\)\s*;\s*\}\s*"
+                          r"char\s*\*\s*result\s*=\s*data_\s*;\s*data_\s*\+=\s*size\s*;\s*free_space_\s*-=\s*size\s*;\s*return\s+result\s*;\s*", b), "string_pool::allocate_space shape")
+    w(f"/-- `if({m.group(1).strip()})`: own block, linked in *behind* the head page -/\ndef poolOversized (size page_size_ : Nat) : Bool := {c_to_lean(m.group(1))}")
+    w(f"/-- `if({m.group(2).strip()}) add_page();` -/\ndef poolNeedsPage (size free_space_ : Nat) : Bool := {c_to_lean(m.group(2))}")
+    b = function_body(smap, r"void\s+clear\s*\(\s*\)\s*\{")
+    keeps_head = re.fullmatch(r"\s*page\s*\*\s*p\s*=\s*pages_->next\s*;\s*pages_->next\s*=\s*0\s*;\s*while\s*\(\s*p\s*\)\s*\{\s*page\s*\*\s*next\s*=\s*p->next\s*;\s*free\(p\)\s*;\s*p\s*=\s*next\s*;\s*\}\s*"
+                              r"data_\s*=\s*pages_->data\s*;\s*free_space_\s*=\s*page_size_\s*;\s*", b) is not None
+    keeps_last = re.fullmatch(r"\s*while\s*\(\s*pages_->next\s*\)\s*\{\s*page\s*\*\s*p\s*=\s*pages_\s*;\s*pages_\s*=\s*pages_->next\s*;\s*free\(p\)\s*;\s*\}\s*"
+                              r"data_\s*=\s*pages_->data\s*;\s*free_space_\s*=\s*page_size_\s*;\s*", b) is not None
+    if not (keeps_head or keeps_last):
+        raise Untranslatable("string_pool::clear shape")
+    w("/-- `string_pool::clear()` keeps the head page of its list (the only one known to have `page_size_` bytes); `false`: it\nkeeps the last page of the list -/")
+    w(f"def poolClearKeepsHead : Bool := {'true' if keeps_head else 'false'}")
     w("")
 
     # ============================================================ exit discipline
